@@ -422,6 +422,12 @@ pub fn perm_one(seed: u64, i: usize) -> (usize, usize, Vec<Value>, Option<Value>
             evals += 1;
             variants_tried += 1;
             check(&d, format!("leaf {leaf} named arguments in order {perm:?}"), &mut violations);
+            // the same order written without blanks: `"a",callback=|lex| 1,priority=3`
+            let mut t = d.clone();
+            t.pats[leaf].tight = true;
+            evals += 1;
+            variants_tried += 1;
+            check(&t, format!("leaf {leaf} named arguments in order {perm:?}, written without blanks around `=` and `,`"), &mut violations);
         }
     }
     // #[logos(...)] item orders
@@ -549,6 +555,7 @@ const MALFORMED_ARGS: &[&str] = &[
 ];
 
 const MALFORMED_ITEMS: &[&str] = &[
+    "extras = HashMap<String, u32>", "error = Result<u8, u8>", "extras = ", "error = ", "extras = 1 + 2", "error = 1 + 2", "crate = \"x\"", "crate = a::<b, c>", "crate = ",
     "écart = 1", "тип", "日本語(x)", "é", "ünicode = \"a\"", "skip(\"a\", прио = 1)", "error(E, обратный = f)", "subpattern ß = \"a\"", "type Ж = u8",
     "error = E, error = F", "error(E, callback = f, callback = g)", "error(E, f, g)", "error(E, callback)", "error()", "error", "extras = X, extras = Y", "utf8 = false, utf8 = true",
     "utf8 = maybe", "utf8", "skip", "skip 1", "skip(\"a\", callback = f, callback = g)", "skip()", "subpattern", "subpattern x", "subpattern x = 1", "subpattern 1 = \"a\"",
@@ -719,6 +726,44 @@ pub enum X5<'a, N, V> {
     B(V),
 }
 "#,
+    // elided (higher-ranked) lifetimes in the extras type stay elided
+    r#"fn c_ex<'a>(lex: &mut Lexer<'a, X7<'a>>) -> usize { let up = String::from("xyz"); (lex.extras.1.unwrap())(&up) }
+#[derive(Logos)]
+#[logos(extras = (&'a str, Option<fn(&str) -> usize>))]
+pub enum X7<'a> {
+    #[token("a", c_ex)]
+    A(usize),
+    #[token("b")]
+    B(&'a str),
+}
+"#,
+    // lifetimes in a qualified-self type and in the trait of a trait object
+    r#"pub trait Tr8 { type Out; }
+pub struct W8<'x>(pub &'x str);
+impl<'x> Tr8 for W8<'x> { type Out = &'x str; }
+pub trait Dy8<'x> { fn get(&self) -> &'x str; }
+pub struct H8<'x>(&'x str);
+impl<'x> Dy8<'x> for H8<'x> { fn get(&self) -> &'x str { self.0 } }
+fn c_dy<'s>(lex: &mut Lexer<'s, X8<'s>>) -> Box<dyn Dy8<'s> + 's> { Box::new(H8(lex.slice())) }
+#[derive(Logos)]
+pub enum X8<'a> {
+    #[regex("[a-z]+", |lex| lex.slice())]
+    Word(<W8<'a> as Tr8>::Out),
+    #[regex("[0-9]+", c_dy)]
+    Dyn(Box<dyn Dy8<'a> + 'a>),
+    #[token("!")]
+    Bang(&'a str),
+}
+"#,
+    // `?` / `return` inside a closure-syntax callback
+    r#"#[derive(Logos)]
+pub enum X9 {
+    #[regex("[0-9]+", |lex| { let n: u32 = lex.slice().parse().ok()?; Some(n * 2) })]
+    Num(u32),
+    #[token("b")]
+    B,
+}
+"#,
     // a user callback that shares its name with a generated item of the tail-call lexer
     r#"fn state1<'s>(lex: &mut Lexer<'s, X6>) -> usize { lex.slice().len() }
 #[derive(Logos)]
@@ -793,17 +838,29 @@ pub fn rustc_only_specimens() -> &'static [&'static str] {
     RAW_RUSTC_ONLY
 }
 
+/// Malformed `#[logos(...)]` items that must be REJECTED: accepting them means silently dropping
+/// what the user wrote (a priority, a second pattern) or reading one item as another.
+const MUST_REJECT_ITEMS: &[&str] = &[
+    "skip \"[a-z]+\" priority = 100", "skip \" \" \"\\t\"", "skip \"a\" | \"b\"", "skip \"x\" ignore(case)", "skip \"x\" cb", "subpattern x, \"b+\"", "type T, u32", "subpattern x",
+    "skip \"ab\" priority = 1, utf8 = true",
+];
+
 pub const ENUM_MARKER: &str = "//---ENUM---";
 
 /// Number of specimens in the exhaustive enumeration of `category_specimen_nth`.
 pub fn category_specimen_count() -> usize {
-    VARIANT_SHAPES.len() + 2 * MALFORMED_ARGS.len() + MALFORMED_ITEMS.len() + RAW_MALFORMED.len() + RAW_CLEAN.len()
+    VARIANT_SHAPES.len() + 2 * MALFORMED_ARGS.len() + MALFORMED_ITEMS.len() + RAW_MALFORMED.len() + RAW_CLEAN.len() + MUST_REJECT_ITEMS.len()
 }
 
 /// The n-th specimen of the fixed list (every variant shape, every malformed argument list in
 /// both #[token] and #[regex], every malformed #[logos] item).
 pub fn category_specimen_nth(n: usize) -> (String, &'static str) {
     let n = n % category_specimen_count();
+    let base = category_specimen_count() - MUST_REJECT_ITEMS.len();
+    if n >= base {
+        let item = MUST_REJECT_ITEMS[n - base];
+        return (format!("#[derive(Logos)]\n#[logos({item})]\nenum T {{\n    #[token(\"a\")]\n    A,\n    #[regex(\"[a-z]+\", priority = 5)]\n    W,\n}}\n"), "malformed-must-reject");
+    }
     if n < VARIANT_SHAPES.len() {
         let (shape, must_reject) = VARIANT_SHAPES[n];
         let lt = if shape.contains("'s") { "<'s>" } else { "" };
@@ -955,6 +1012,9 @@ pub fn fuzz_one(seed: u64, i: usize) -> (Vec<Value>, BTreeMap<String, usize>, Op
             match &a.outcome {
                 Outcome::Panicked(m) => violations.push(vj("derive-panicked", m)),
                 Outcome::Accepted if cat == "bad-variant-shape" => violations.push(vj("must-reject-accepted", "named / empty / multi-field variant accepted")),
+                Outcome::Accepted if cat == "malformed-must-reject" => violations.push(vj("must-reject-accepted", "malformed #[logos(...)] item accepted: part of what was written is silently dropped or read as another item")),
+                // recorded diagnostics must reach the user: rustc only reports "unparsable tokens" otherwise
+                Outcome::Rejected(_) if syn::parse_file(&a.output).is_err() => violations.push(vj("diagnostics-in-unparsable-output", &format!("the derive recorded compile_error diagnostics but its output is not parsable Rust: {}", a.output.chars().take(300).collect::<String>()))),
                 Outcome::Rejected(_) => bump("rejected", &mut stats),
                 Outcome::Accepted => bump("accepted", &mut stats),
                 _ => {}
@@ -1025,7 +1085,7 @@ pub fn rsample_sources(seed: u64, count: usize) -> Vec<(String, String, Vec<Stri
             // malformed argument lists may legitimately be read as (undefined) callback paths: only
             // the no-panic and diagnostics-surface checks apply to them
             let (src, cat) = category_specimen_nth(i - 1);
-            (src, cat != "malformed")
+            (src, cat != "malformed" && cat != "malformed-must-reject")
         } else {
             match i % 3 {
                 0 => {
